@@ -6,7 +6,7 @@ from typing import Any, Dict, List, Optional, Set, Tuple
 
 from ..facts import AnalysisError
 from ..report import Check
-from ..symexec import SymExec, freeze, show, Path, Event
+from ..symexec import SymExec, freeze, show, Path, Event, is_const
 from .. import opmodel as om
 from .. import functab
 from .. import ctx as C
@@ -188,6 +188,8 @@ def check(chk: Check) -> None:
     _r4_r5(chk)
     _r6(chk)
     _r7(chk)
+    _r8(chk)
+    _r9(chk)
 
 
 def _r7(chk: Check) -> None:
@@ -253,6 +255,134 @@ def _r7(chk: Check) -> None:
             problems.append('eval returns %s, not the value `%s` produced' % (show(ret), evs[-1].text()))
     chk.require(not problems and n_ret, R7, q, fi.where, '; '.join(sorted(set(problems))[:3]) or
                 '%d returning path(s): the value of the program is returned as it is' % n_ret)
+
+
+def _program_supplied(f) -> bool:
+    """The callee term is rooted in a parameter (the scoped names of the state, a callback argument) - not in a table of the
+    package itself (OPERATORS.get(self.op) picks one of the package's own functions)."""
+    root = f
+    while isinstance(root, tuple) and root and root[0] in ('attr', 'sub', 'elem', 'unpack', 'withas', 'phi'):
+        root = root[3] if root[0] == 'phi' else root[1]
+    if isinstance(root, tuple) and root[:1] == ('call',) and len(root) > 2:
+        g = root[2]
+        if isinstance(g, tuple) and g[:1] == ('attr',):
+            return _program_supplied(g[1])
+        return False
+    return isinstance(root, tuple) and root[:1] in (('param',), ('closure',))
+
+
+def _r8(chk: Check) -> None:
+    """Errors pass through the evaluator unchanged: an exception raised inside a function the program calls, or inside the
+    evaluation of a child node, reaches the caller as it is.  A try block whose handler converts or swallows exceptions must
+    not have such a call in its body - the handler written for the lookup next to it would re-label the callee's own errors."""
+    F = chk.facts
+    R8 = chk.rule('C07.R8', 'error transparency: no call of a program-supplied function and no child evaluation sits in the body of a '
+                            'try block whose handler converts or swallows what it catches (only handlers that re-raise unchanged)', floor=2)
+    chk.decided += ['errors raised by callees and child evaluations are not re-labelled by handlers meant for a neighbouring lookup (R8)']
+    from .c02 import classify_callee, entry_units
+
+    def converting(h: ast.ExceptHandler) -> bool:
+        # anything but cleanup followed by a bare `raise`
+        return not (h.body and isinstance(h.body[-1], ast.Raise) and h.body[-1].exc is None)
+    n = 0
+    for label, fi, _ in entry_units(chk):
+        if fi.qual.startswith('smartquery.sq_parser.') or '.t_' in label or '.p_' in label or 'ScopedDict' in label:
+            continue
+        try:
+            paths = SymExec(F, fi).run()
+        except AnalysisError:
+            continue
+        is_eval = fi.qual.endswith('.' + om.EVAL) and fi.cls is not None
+        selft = stt = None
+        if is_eval:
+            selft, stt = ('param', om.self_param(F, fi.qual)), ('param', om.state_param(F, fi.qual))
+        problems = []
+        seen = 0
+        for p in paths:
+            for e in p.events:
+                if e.kind != 'call':
+                    continue
+                what = None
+                if is_eval and om.is_child_eval(e, selft, stt):
+                    what = 'the child evaluation `%s`' % e.text()
+                else:
+                    verdict, _d = classify_callee(F, e)
+                    if verdict == 'dynamic' and _program_supplied(freeze(e.func)):
+                        what = 'the call `%s` of a function the program supplies' % e.text()
+                if what is None:
+                    continue
+                seen += 1
+                for c in (e.d.get('handlers') or []):
+                    if c[0] != 'try':
+                        continue
+                    for types, h in c[2]:
+                        if isinstance(h, ast.ExceptHandler) and converting(h):
+                            tn = ', '.join(t[1].rsplit('.', 1)[-1] for t in types)
+                            problems.append('%s sits in the body of `try ... except %s` (line %d): a %s raised inside the callee is '
+                                            'caught there and comes out as something else' % (what, tn, getattr(h, 'lineno', 0), tn))
+        if not seen:
+            continue
+        n += 1
+        chk.require(not problems, R8, label, fi.where, '; '.join(sorted(set(problems))[:2]) or
+                    '%d call(s) of program functions / child evaluations, none inside a converting handler' % seen)
+    if n == 0:
+        raise AnalysisError('anchor vanished: no unit calls a program-supplied function or evaluates a child')
+
+
+def _r9(chk: Check) -> None:
+    """Python's sort is stable and sorted(..., reverse=True) keeps elements with equal keys in their original order; an
+    ascending sort that is flipped afterwards (list.reverse(), reversed(), [::-1]) reverses them.  Descending order therefore
+    has to come from the reverse= option of the sort itself."""
+    F = chk.facts
+    R9 = chk.rule('C07.R9', 'descending order comes from the sort itself: the result of sorted() / list.sort() is never flipped '
+                            'afterwards (reverse=True keeps equal elements in input order, a flipped ascending sort does not)', floor=1)
+    chk.decided += ['sort stability under reverse (R9)']
+    tab = functab.table(F)
+    n = 0
+    for key in sorted(tab):
+        ent = tab[key]
+        fi = ent.funcinfo(F)
+        if fi is None:
+            continue
+        try:
+            paths = SymExec(F, fi).run()
+        except AnalysisError:
+            continue
+        problems = []
+        sorts = 0
+        for p in paths:
+            sorted_terms = []
+            for e in p.events:
+                if e.kind != 'call':
+                    continue
+                f = freeze(e.func)
+                if f == ('ref', 'builtin', 'sorted'):
+                    sorts += 1
+                    sorted_terms.append(A.strip_ids(freeze(e.result)))
+                    continue
+                if isinstance(f, tuple) and f[:1] == ('attr',) and f[2] == 'sort':
+                    sorts += 1
+                    sorted_terms.append(A.strip_ids(f[1]))
+                    continue
+                if not sorted_terms:
+                    continue
+                if isinstance(f, tuple) and f[:1] == ('attr',) and f[2] == 'reverse' and A.strip_ids(f[1]) in sorted_terms:
+                    problems.append('`%s` flips the sorted list' % e.text())
+                if f == ('ref', 'builtin', 'reversed') and e.args and A.strip_ids(freeze(e.args[0])) in sorted_terms:
+                    problems.append('`%s` flips the sorted list' % e.text())
+            for e in p.events:
+                if e.kind == 'load_sub' and sorted_terms and A.strip_ids(freeze(e.obj)) in sorted_terms:
+                    ix = freeze(e.index)
+                    if isinstance(ix, tuple) and ix[:1] == ('slice',) and len(ix) >= 4 and is_const(ix[3]) and isinstance(ix[3][1], int) and ix[3][1] < 0:
+                        problems.append('`%s` reads the sorted list backwards' % e.text())
+        if not sorts:
+            continue
+        n += 1
+        chk.require(not problems, R9, ent.label, '%s:%d' % (F.modules[functab.FUNCS_MOD].rel, ent.line),
+                    '; '.join(sorted(set(problems))) + ': elements with equal keys come out in reversed order' if problems else
+                    '%d sort call(s); the result is not flipped afterwards' % sorts)
+    if n == 0:
+        raise AnalysisError('anchor vanished: no function-table entry sorts')
 
 
 def _r6(chk: Check) -> None:
